@@ -5,8 +5,8 @@ Stage level.  The `queueing_counter` registration the CLI really makes (callback
 for `[]` and `[--keep_prep]`) is run inside a real EventProcessor / Engine.run on generated event
 streams; events carry `args.jobhash` registered through `GlobalIngestData.add_job_info` exactly
 like ingestion does.  The compiled Lean model (`Preps.runStage`) is run on the same stream and
-the two canonical outputs (pass-through uids and `(pid, ts, Concurrency)` samples, in order; or the
-error class) are compared for equality.  All times are on the exact grid (multiples of 1/16), so
+the two canonical outputs (pass-through uids in order and, per pid, its `(ts, Concurrency)` samples
+in order; or the error class) are compared for equality.  All times are on the exact grid (multiples of 1/16), so
 the comparison is exact; there is no tolerant field.
 
 End to end.  Synthetic FLEX traces (gen/scenario.py Rank, random Prep families per rank) are run
@@ -46,7 +46,7 @@ THEOREMS = [
     "AiuVerif.C13.stage_pass_drop",
     "AiuVerif.C13.concurrent_preps_correct",
 ]
-RULE = ("event streams for the queueing_counter stage: exhaustive start-sorted families of up to 3 (quick) / 4 "
+RULE = ("event streams for the queueing_counter stage: exhaustive start-sorted families of up to 4 (quick) / 5 "
         "(thorough) Prep intervals with endpoints in {0..5} x keep_prep on/off; random structured streams with "
         "1-3 ranks, endpoints drawn from a small pool on the 1/16 grid (ties, touching, nesting, chains frequent), "
         "mixed with non-Prep slices, other phases and events without dialect; unsorted and malformed streams "
@@ -134,7 +134,25 @@ def canon_real(r):
             toks.append(f"c{e['pid']}:{rat(e['ts'])}:{e['args']['Concurrency']}")
         else:
             toks.append(f"p{e['uid']}")
-    return "ok " + ";".join(toks)
+    return project("ok " + ";".join(toks))
+
+
+def project(answer):
+    """the property-relevant projection of an output stream: pass-through uids in order, and per pid its
+    samples in order (how the samples of different pids and the passed events interleave is not compared,
+    so e.g. another drain order between pids is not a disagreement)"""
+    if not answer.startswith("ok"):
+        return answer
+    passes, per = [], {}
+    for tok in answer[3:].split(";"):
+        if not tok:
+            continue
+        if tok[0] == "p":
+            passes.append(tok[1:])
+        else:
+            pid, t, c = tok[1:].split(":")
+            per.setdefault(int(pid), []).append(f"{t}:{c}")
+    return "ok P=" + ",".join(passes) + " " + " ".join(f"C{pid}=" + ",".join(v) for pid, v in sorted(per.items()))
 
 
 def line(case):
@@ -373,22 +391,22 @@ def relations(case):
 
 
 def gen_cases(ctx: Ctx):
-    maxn = 3 if ctx.quick() else 4
+    maxn = 4 if ctx.quick() else 5
     for fam in grid_families(maxn):
         for keep in (False, True):
             yield "grid", {"keep": keep, "events": [mk_ev(i + 1, 0, s, e) for i, (s, e) in enumerate(fam)]}
     ctx.extra["exhaustive_grid"] = f"all start-sorted families of <= {maxn} intervals on {{0..5}} x keep_prep"
     # two ranks: pairs of grid families interleaved
     fams = list(grid_families(3))
-    for _ in range(ctx.n(300, 6000)):
+    for _ in range(ctx.n(1000, 10000)):
         f0, f1 = ctx.rng.choice(fams), ctx.rng.choice(fams)
         merged = sorted([(0, s, e) for s, e in f0] + [(1, s, e) for s, e in f1], key=lambda x: (x[1], ctx.rng.random()))
         yield "grid2", {"keep": ctx.rng.random() < 0.5, "events": [mk_ev(i + 1, p, s, e) for i, (p, s, e) in enumerate(merged)]}
-    for _ in range(ctx.n(1200, 30000)):
+    for _ in range(ctx.n(4000, 40000)):
         yield "random", random_case(ctx.rng, "sorted")
-    for _ in range(ctx.n(400, 8000)):
+    for _ in range(ctx.n(1000, 10000)):
         yield "unsorted", random_case(ctx.rng, "unsorted")
-    for _ in range(ctx.n(400, 8000)):
+    for _ in range(ctx.n(1000, 10000)):
         yield "malformed", random_case(ctx.rng, "malformed")
 
 
@@ -456,7 +474,7 @@ def e2e_case(ctx, case, verbose=False):
 
 def gen_e2e(ctx: Ctx):
     rng = ctx.rng
-    for _ in range(ctx.n(12, 150)):
+    for _ in range(ctx.n(40, 400)):
         R = rng.choice([1, 2, 3])
         pool = sorted({rng.randint(10, 300) for _ in range(rng.randint(4, 9))})
         ranks = []
@@ -509,8 +527,8 @@ def run(ctx: Ctx):
         return
     outs = ctx.driver.ask([ln for _, ln in cases])
     for (jc, _), real, model in zip(cases, reals, outs):
-        ctx.compare("Preps.runStage vs queueing_counter through EventProcessor (pass-through uids + counter samples, in order)",
-                    jc, model, real)
+        ctx.compare("Preps.runStage vs queueing_counter through EventProcessor (pass-through uids in order + per-pid counter samples in order)",
+                    jc, project(model), real)
 
 
 def shrink(ctx: Ctx, case, classifier):
